@@ -15,9 +15,12 @@ def C(pkg, quick, thorough, technique, note, level_text=EXPL, **kw):
     return d
 
 CHECKS = {
-    "C01": C("c01", dict(checks=40, shards=6, timeout=600), dict(checks=400, shards=16, timeout=6000),
+    "C01": C("c01", dict(checks=30, shards=4, timeout=900), dict(checks=400, shards=16, timeout=6000),
              "property-based testing (rapid): generated valid feature sets round-tripped through the compact index builder and compared with the same set held in the plain in-memory world (reference model) and with the input itself",
              "Trusted: the in-memory (basic) world as a reference for how a feature reads back, and s2 for E7 conversion. Tag values are strings (the only non-geometry value kind the compact tag codec represents). Sizes are small: offset widths > 4 bytes and file/mmap outputs are not reached."),
+    "C02": C("c02", dict(checks=25, shards=4, timeout=900), dict(checks=400, shards=16, timeout=6000),
+             "property-based testing (rapid): differential between the compact world and the in-memory world built from the same generated OSM source, over a canonical snapshot of every read query",
+             "Trusted: neither world; any disagreement is reported. Locations are compared at E7 (the in-memory world keeps the float it was given). Result order is compared for searches only; references, relations and areas are compared as sets (their order is map iteration order in the in-memory world)."),
     "C06": C("c06", dict(checks=5000, shards=2, timeout=300), dict(checks=50000, shards=16, timeout=3000),
              "property-based testing (rapid): generated indices, query trees and Next/Advance call scripts on three index back ends compared with a set-algebra denotation and a sorted-slice iterator model",
              "Trusted: the set denotation and position model in harness/c06. The empty intersection (which would denote the universe and indexes iterators[0]) is outside the domain; scripts stop at the first false result because behaviour after exhaustion differs between back ends and is unspecified."),
